@@ -94,6 +94,11 @@ class Module:
             for t in node.targets:
                 if isinstance(t, ast.Name):
                     self.consts[t.id] = node.value
+                elif isinstance(t, (ast.Tuple, ast.List)) and isinstance(node.value, (ast.Tuple, ast.List)) and len(t.elts) == len(node.value.elts):
+                    # A, B = "a", "b" at module level: each name is a constant of its own
+                    for tt, vv in zip(t.elts, node.value.elts):
+                        if isinstance(tt, ast.Name) and not isinstance(vv, ast.Starred):
+                            self.consts[tt.id] = vv
             for t in node.targets:
                 if isinstance(t, ast.Subscript) and isinstance(t.value, ast.Name):
                     self.mutations.setdefault(t.value.id, []).append(node)
